@@ -375,6 +375,9 @@ def check_declared_shapes(ctx, rep):
 def run(ctx) -> Report:
     rep = Report("C07")
     prog = ctx.prog
+    # the memo-key clause first: it needs no interpretation, and what it finds is reported even if a later clause cannot follow the code
+    from ..memokey import check_memo_keys, memo_rule  # noqa: F401
+    memo_rule(ctx, rep, "C07-key", ['ufl.algorithms.apply_geometry_lowering'])
     cls = prog.get_class(f"{MOD}.GeometryLoweringApplier")
     ctx.crosscheck_dispatch({"GeometryLoweringApplier"})
     pts = 24 if ctx.thorough() else 10
@@ -644,5 +647,4 @@ def run(ctx) -> Report:
     ]
     from ..memokey import memo_rule
 
-    memo_rule(ctx, rep, "C07-key", ['ufl.algorithms.apply_geometry_lowering'])
     return rep
